@@ -3,7 +3,8 @@
 previous complete run (notes/thorough_run_1.log)."""
 import re, sys, os
 V = os.path.dirname(os.path.dirname(os.path.abspath(__file__)))
-new_log, new_commit = sys.argv[1], sys.argv[2]
+new_commit = sys.argv[-1]
+new_logs = sys.argv[1:-1]
 pat = re.compile(r"^(C\d\d) exit=(\d+) wall=(\d+)s .*states=(\d+) traces=(\d+) evaluations=(\d+) violations=(\d+) known=(\d+)")
 
 
@@ -16,11 +17,13 @@ def rows(path):
     return out
 
 
-new = rows(new_log)
+new = {}
+for lg in new_logs:          # later logs (runs started from later commits) override earlier ones
+    new.update(rows(lg))
 old = rows(os.path.join(V, "notes", "thorough_run_1.log"))
 lines = ["All thorough tiers are run in the background on a committed snapshot (`vp run -- tools/all_thorough.sh`, seed 0, machine shared with the seeding agents and",
-         "the evaluation queues, so the wall times are pessimistic by a factor of 3-5). Run 2 (commit %s, after seeding round 5) reached %d of the 20 tiers before the" % (new_commit, len(new)),
-         "time budget ended; the others show run 1 (commit 88096a5). Every tier that ran exited 0 with no violation line:", "",
+         "the evaluation queues, so the wall times are pessimistic by a factor of 3-5). Runs 2 and 3 (commits %s, after seeding rounds 5 and 6) reached %d of the 20" % (new_commit, len(new)),
+         "tiers; any other shows run 1 (commit 88096a5). Every tier that ran exited 0 with no violation line:", "",
          "| id | run | states (TLC, distinct) | traces validated | evaluations | known-finding hits | wall |", "|---|---|---|---|---|---|---|"]
 for i in range(1, 21):
     pid = "C%02d" % i
